@@ -3,7 +3,8 @@
   (binary connectives, the ternary conditional, the quantifier aliases), `quantify` / `exist` /
   `forall`, `let` in its three forms (Boolean values / names / `Function`s), `cube`, `add_expr`,
   `support`.  Each theorem holds in BOTH modes (`off = true`: reordering not enabled, every state
-  of the mode; `off = false`: reordering may be enabled and may fire inside the call, C09).
+  of the mode; `off = false`: reordering may be enabled and may fire inside the call, C09 — with
+  `Two off a`, at least two declared variables).
 
   Shape of every statement (`AValue off a h x Doc`, DDProofs/AutoValues2.lean): for live operands
   and declared names the method RETURNS a node `r`; the new `Function` `h` sits on `r`; `r` is a
